@@ -213,7 +213,7 @@ pub fn run_pairs(ctx: &Ctx, ents: &[Ent], full: bool, tag: &str) {
             judge_pair(a, b, full, l);
         }
         l.evals_add(n);
-        if i % 4099 == 0 {
+        if i % 20011 == 7 {
             let b = &ents[((i * 7919 + 13) % n) as usize];
             l.sample(json!({"family": "pair", "a": vref::name::present_any(&a.r), "b": vref::name::present_any(&b.r),
                 "cmp": ord_name(a.h.cmp(&b.h)), "eq": a.h == b.h}));
